@@ -174,19 +174,58 @@ def labelsSel (c : PCtx) (col : String) (label : Option Bytes) (withFp : Bool) :
       (match label with | some l => [eq (.raw "key") (.str l)] | none => []))))
     [] none [] (some (.int 10000))
 
+/-- `ProfileSizePlanner.Process` over `main` = the merge-profiles statement (AnalyzeQuery): two bracketed sub-selects over
+    WITH entries (`pre_profile_size`, and the `fp` entry hoisted from `main`) as columns; no table is read here -/
+def profileSize (main : Sel) : Sel :=
+  (Sel.mk [] false
+    [.col (.call "" [.sub (.mk [] false [.raw "sum(length(payload)::Int64)"] (some (.withRef (.named "pre_profile_size"))) [] none none [] none [] none)])
+       "profile_size",
+     .col (.call "" [.sub (.mk [] false [.raw "uniqExact(fingerprint)::Int64"] (some (.withRef (.named "fp"))) [] none none [] none [] none)])
+       "fingerprint_count"]
+    none [] none none [] none [] none).with_ [(.named "pre_profile_size", main)]
+
+/-- `PlanAnalyzeQuery` (no type-id selectors: one selector list for both planners) -/
+def analyzeQuery (c : PCtx) (globals kvs : List PCond) : Sel := profileSize (mergeProfiles c globals kvs globals)
+
 /-- a statement whose one WITH entry is `(s₀) UNION ALL (s₁) …` (`UnionAllPlanner` → `unionAll.String`): the shared `Sel`
     has no place for a union as a WITH query, so the operands are kept beside the main select and `render` writes them
     the way `With.String` / `unionAll.String` / `Select.String` do -/
 structure UnionStmt where
+  /-- WITH entries in front of the union entry (hoisted from its first operand) -/
+  pre : List (Alias × Sel) := []
   alias : String
   ops : List Sel
+  /-- WITH entries after it -/
+  post : List (Alias × Sel) := []
   main : Sel
 
 def UnionStmt.render (u : UnionStmt) : Bytes :=
-  b "WITH " ++ b u.alias ++ b " as ((" ++ joinB (b ") UNION ALL (") (u.ops.map renderSelBody) ++ b "))" ++ renderSelBody u.main
+  b "WITH " ++ joinB (b ",") (renderWiths u.pre ++
+    [b u.alias ++ b " as ((" ++ joinB (b ") UNION ALL (") (u.ops.map renderSelBody) ++ b "))"] ++ renderWiths u.post) ++
+  renderSelBody u.main
 
 /-- LabelNames / LabelValues with selector sets (`len(scripts) > 0`): `fp` = the union of their selector statements -/
 def labelsUnion (c : PCtx) (col : String) (label : Option Bytes) (scripts : List (List PCond × List PCond)) : UnionStmt :=
   { alias := "fp", ops := scripts.map (fun p => selectorSel c p.1 p.2), main := labelsSel c col label true }
+
+/-- the select `TimeSeriesDistinctPlanner` puts over the union -/
+def preDistinctSel : Sel :=
+  .mk [] true [simpleCol "tags" "tags", simpleCol "type_id" "type_id", simpleCol "__sample_types_units" "__sample_types_units"]
+    (some (.withRef (.named "pre_distinct"))) [] none none [] none [] none
+
+/-- `PlanSeries` for two or more selector sets: `pre_distinct` = the UNION ALL of one `TimeSeriesSelectPlanner` statement per
+    set — rendered without their own WITH lists; the only `fp` entry is the one hoisted from the FIRST operand, so every
+    operand's `p.fingerprint IN fp` refers to the first set's fingerprints (as the code is; see notes/C13.md) — under a
+    DISTINCT select, and `FilterLabelsPlanner` around it when label names are given -/
+def seriesUnion (c : PCtx) (labels : List Bytes) (scripts : List (List PCond × List PCond)) : UnionStmt :=
+  let fp : List (Alias × Sel) := match scripts with
+    | [] => []
+    | p :: _ => [(.named "fp", selectorSel c p.1 p.2)]
+  let ops := scripts.map (fun p => timeSeriesSelect c p.1 p.2 p.1)
+  if labels.isEmpty then { pre := fp, alias := "pre_distinct", ops := ops, main := preDistinctSel }
+  else { pre := fp, alias := "pre_distinct", ops := ops, post := [(.named "pre_label_filter", preDistinctSel)],
+         main := .mk [] false [.col (arrayFilterIn labels "tags") "tags", simpleCol "type_id" "type_id",
+                               simpleCol "__sample_types_units" "__sample_types_units"]
+                   (some (.withRef (.named "pre_label_filter"))) [] none none [] none [] none }
 
 end Qryn.Prof
